@@ -5,10 +5,65 @@ import json, os
 ROOT = os.path.dirname(os.path.dirname(os.path.abspath(__file__)))
 ALL = ["C%02d" % i for i in range(1, 21)]
 # id -> (level, technique, level text, level note, design ref)
+TRUST = "Trusts the Go standard library crypto, circl (VOPRF / blind RSA engine used by both sides), go-hpke and the harness's reference code (validated against the repository's and the Rust implementation's vectors); sampling, not proof."
 CHECKS = {
- "C01": ("exploration", "deterministic simulation of the whole issuance deployment over a simulated byte network; seeded benign-fault schedules; independent token oracle",
-         "Seeded search over honest deployment runs (all four token types, interleaved sessions, delay/reorder/duplicate/drop+retransmit/segmentation, key and size configuration); every session must end in tokens that match an independently built encoding and verify (issuer Verify / crypto/rsa). Sampling, not proof.",
-         "Trusts Go stdlib crypto, circl VOPRF/blind-RSA, go-hpke; RSA keys from a fixture pool of 8.", "DESIGN.md §4 C01"),
+ "C01": ("exploration", "deterministic simulation of the whole issuance deployment over a simulated byte network; seeded benign-fault schedules (delay, reorder, duplicate, drop+retransmit, segmentation); independent token oracle",
+         "Seeded search over honest deployment runs (all four token types, interleaved sessions, key and size configuration); every session must end in tokens that match an independently built encoding and verify (issuer Verify / crypto/rsa).",
+         TRUST + " RSA keys from a fixture pool of 8.", "DESIGN.md §4 C01"),
+ "C02": ("fault_enumeration", "deterministic simulation with a byzantine issuer on the response hop: every single-bit flip enumerated, swap, foreign key, type-5 omission/duplication/transposition",
+         "Every bit position of honest responses of each type is flipped and delivered to a client with an outstanding request; plus swaps between sessions, foreign-key responses and batch structure faults. Finalize may succeed only with a token that verifies and is bound to the request.",
+         TRUST, "DESIGN.md §4 C02"),
+ "C03": ("fault_enumeration", "deterministic simulation with a garbage-sending peer, isolated worker processes, allocation meter and watchdog: every truncation, every length field x boundary set, extension, splice, noise on 29 byte-consuming targets",
+         "Every truncation of honest in-flight messages and every length/count field rewritten to a boundary set up to 2^62-1 is delivered to every function that consumes peer bytes; oracle: no panic, no process death, bounded allocation and CPU.",
+         TRUST + " Allocation bound 8 MiB + 1 KiB x input; hang = 20 s.", "DESIGN.md §4 C03"),
+ "C04": ("exploration", "deterministic simulation with a codec monitor on the simulated wire: round trip, canonical re-encoding, decoder-object reuse histories, cross-type misrouting, accepted mutants; Rust trace replay",
+         "Every message of honest runs plus 30-60 mutants each is offered to its decoder (round trip, canonical form, reuse after another value) and to the other types' decoders and the generic batch decoder (must reject).",
+         TRUST, "DESIGN.md §4 C04"),
+ "C05": ("exploration", "deterministic simulation of generic batch issuance with per-slot failure injection over all short compositions and issuer configurations; per-request standalone evaluation as reference model",
+         "All compositions of length <= 2 (quick) / <= 3 (thorough) over {type1,type2} x {known key, unknown key id, malformed element} under four issuer configurations, sampled longer ones; each entry must agree with the per-slot model and finalize to a valid token.",
+         TRUST, "DESIGN.md §4 C05"),
+ "C06": ("fault_enumeration", "deterministic simulation with a byzantine client on the client->attester hop: every single-bit flip of a request, wrong blinds / client keys, swapped side information, re-signed requests; stdlib ECDSA + independent key-blinding reference; recording cache",
+         "accept <=> (crypto/ecdsa verifies the signature over the exact contents under the request key) and (request key = reference-blind(client key, blind)); rejected requests must not touch the cache.",
+         TRUST, "DESIGN.md §4 C06"),
+ "C07": ("fault_enumeration", "deterministic simulation with a byzantine client on the hop into the rate-limited issuer: every single-bit flip, misrouting, 16 hostile request classes built with crypto/ecdsa + go-hpke; independent parse/HPKE-open/origin/ECDSA checker",
+         "A response is returned only if the independent checker accepts; every single-bit variant and every hostile class must be refused with no output.",
+         TRUST, "DESIGN.md §4 C07"),
+ "C08": ("exploration", "deterministic simulation of type-3 request histories through real client, attester and issuer with duplicated/reordered messages; independent HKDF / hash-to-field / elliptic reference and cross-history invariants",
+         "Every FinalizeIndex output equals the reference alias; IDs are stable per (client, index key) across blinds/nonces/challenges and distinct otherwise.",
+         TRUST, "DESIGN.md §4 C08"),
+ "C09": ("exploration", "deterministic simulation of attester histories (collisions, repeats, unverified client, cache-emptied restart, dup/reorder) replayed step by step against an executable bookkeeping model, plus final audit sweep",
+         "Step-by-step agreement of accept/refuse and returned IDs with a 30-line model; after the history every accepted pair is re-submitted.",
+         TRUST, "DESIGN.md §4 C09"),
+ "C10": ("fault_enumeration", "deterministic simulation of the redemption hop with a hostile client: every single-bit flip of issued tokens, other key, other type, re-split/resized fields; provenance oracle",
+         "Verify must accept exactly the (input, authenticator) pairs honestly issued under that key in the run.",
+         TRUST, "DESIGN.md §4 C10"),
+ "C11": ("exploration", "deterministic simulation with entropy faults (poisoned source, other stream) on fixed-blind request creation, blind-pair sessions over the wire, replay of the Rust implementation's vectors as a foreign trace",
+         "Fixed-blind creation must read no entropy and be byte-identical; tokens of sessions differing only in the blind must be identical; Rust vectors reproduce byte for byte.",
+         TRUST, "DESIGN.md §4 C11"),
+ "C12": ("exploration", "deterministic simulation of a blinder/signer/verifier pipeline (delivery order, corruption in transit, signer entropy by plan) on four curves with an independent hash-to-field + crypto/elliptic reference and crypto/ecdsa as second verifier",
+         "Laws (verify under blinded key with both verifiers, reject under unblinded key, inverse, commutativity, blind/context binding) plus strict derivation on P-256/384/521. Leverage is low outside the P-384 protocol path; the reference decides.",
+         TRUST, "DESIGN.md §4 C12"),
+ "C13": ("fault_enumeration", "deterministic simulation of signer -> channel -> verifier with entropy fault injection at every read position x fault kind on six entry points x four curves; channel corruption/malleation with crypto/ecdsa as reference model",
+         "Entropy failure => error and no output; absorbable short reads => result identical to the fault-free one; verdicts equal to crypto/ecdsa on every corrupted or malleated signature produced.",
+         TRUST, "DESIGN.md §4 C13"),
+ "C14": ("fault_enumeration", "deterministic simulation of keygen/signer -> channel -> verifier with crypto/ed25519 beside every step: same entropy fault plan for both key generators, every bit flip of signature and key, S+L / small-order / non-canonical encodings",
+         "Keys, signatures, errors and entropy consumption byte-equal to crypto/ed25519; verdicts equal on every variant.",
+         TRUST, "DESIGN.md §4 C14"),
+ "C15": ("exploration", "deterministic simulation of a blinder/signer/verifier pipeline with a math/big twisted-Edwards reference, poisoned entropy (determinism) and crypto/ed25519.Verify as unmodified verifier",
+         "Blinded key equals the reference; signature deterministic, accepted by crypto/ed25519 under the blinded key only; inverse, commutativity, blind/context binding. Leverage is low (no protocol path).",
+         TRUST, "DESIGN.md §4 C15"),
+ "C16": ("exploration", "deterministic simulation with the arena in strict mode (guards, spare capacity, poison from the plan), second execution under another layout with the same entropy, snapshots of earlier results re-checked after every later call",
+         "Arguments, spare capacity and guards unchanged after every call; results independent of spare contents; requests/encodings/tokens handed out earlier intact across duplicate finalize/evaluate/decoder reuse.",
+         TRUST, "DESIGN.md §4 C16"),
+ "C18": ("exploration", "deterministic simulation of the key directory with rotation while requests are in flight; wire observer recomputes ids from published bytes; own DER assembler for the RSASSA-PSS SPKI; synthetic keys of all sizes",
+         "Published PSS SPKI byte-identical to an independently assembled DER (and to the Rust implementation's pkS); both forms decode back; key-id byte / name-key id on every request = SHA-256 of published bytes. Leverage is low.",
+         TRUST, "DESIGN.md §4 C18"),
+ "C19": ("exploration", "deterministic simulation of a framed byte stream delivered in plan-chosen segments (down to one byte), corrupted length prefixes and truncation, with an own RFC 9000 decoder as reference model on every prefix; all net-engine runs also frame with quicwire",
+         "Consumers agree with the reference on every prefix (n<0 iff incomplete), shortest-form append/size, prefix untouched, no dependence on bytes beyond the slice. Sampling with boundary bias, not enumeration below 2^30.",
+         TRUST, "DESIGN.md §4 C19"),
+ "C20": ("exploration", "deterministic simulation of type-3 issuance under varied registered-origin configurations with a name-length sweep and near-miss names; wire observer groups request sizes by 32-byte block count; independent HPKE open",
+         "served <=> registered; independent open recovers exactly the name; one request size per block count. Leverage is low (configuration x length sweep).",
+         TRUST, "DESIGN.md §4 C20"),
 }
 PENDING_REASON = "check not built yet in this session (work in progress; see DESIGN.md §4 for the planned simulation)"
 def main():
